@@ -255,6 +255,21 @@ def big_merge_case(ctx, seed, total):
     judge_merge(ctx, tracks, rng.random() < 0.5, {'kind': 'big-merge', 'seed': seed, 'total': total})
 
 
+def many_tracks_case(ctx, seed, ntracks):
+    """Many tracks of a few messages each (a multitrack session exported clip by clip; some empty, some only an
+    end_of_track): the cost and the depth of a merge may grow with the number of tracks, its result may not change."""
+    rng = random.Random(seed)
+    tracks = []
+    for ti in range(ntracks):
+        tr = MidiTrack()
+        for i in range(rng.choice((0, 1, 1, 2, 3))):
+            tr.append(Message('note_on', channel=ti % 16, note=(ti // 16) % 128, velocity=i + 1, time=rng.choice((0, 0, 1, 7, 480))))
+        if rng.random() < 0.3:
+            tr.append(MetaMessage('end_of_track', time=rng.choice((0, 3))))
+        tracks.append(tr)
+    judge_merge(ctx, tracks, rng.random() < 0.5, {'kind': 'many-tracks', 'seed': seed, 'tracks': ntracks})
+
+
 def nested_merge_case(ctx, seed):
     """The tracks handed to merge_tracks are produced lazily and call merge_tracks themselves."""
     rng = random.Random(seed)
@@ -372,11 +387,18 @@ def run(ctx):
             big_merge_case(ctx, f'{ctx.seed}:{ctx.shard}:big{total}', total)
             ctx.nontrivial(('big', total))
             n += 1
+    for si, ntr in enumerate((64, 999, 1000, 1001, 2500) + ((20000,) if ctx.tier == 'thorough' else ())):
+        if (si + 7) % ctx.nshards == ctx.shard:
+            many_tracks_case(ctx, f'{ctx.seed}:{ctx.shard}:many{ntr}', ntr)
+            ctx.nontrivial(('many-tracks', ntr))
+            n += 1
     ctx.count('cases', n)
 
 
 def replay(ctx, case):
-    if case['kind'] == 'nested-merge':
+    if case['kind'] == 'many-tracks':
+        many_tracks_case(ctx, case['seed'], case['tracks'])
+    elif case['kind'] == 'nested-merge':
         nested_merge_case(ctx, case['seed'])
     elif case['kind'] == 'big-merge':
         big_merge_case(ctx, case['seed'], case['total'])
